@@ -1,12 +1,13 @@
-\* block-transactions migration, repaired design (FixH15, FixH20), exhaustive, thorough tier: 8 blocks with 0..2
-\* transactions in EVERY placement (6561 initial states), ranges of 2, 2 ingestors, <= 3 crashes,
-\* batches may be handed over early
+\* block-transactions migration, repaired design (FixH15, FixH20), exhaustive, thorough tier: 8 blocks,
+\* each empty or not in EVERY placement (256 initial states), ranges of 2 (4 ranges), 2 ingestors,
+\* <= 3 crashes, <= 1 cancellation, batches may be handed over early
 CONSTANTS
   NBlocks = 8
   R = 2
   I = 2
-  MaxTx = 2
+  MaxTx = 1
   MaxCrashes = 3
+  MaxCancels = 1
   EarlyFlush = TRUE
   FixH15 = TRUE
   FixH20 = TRUE
